@@ -1044,6 +1044,10 @@ func (p *queryPlan) projectAndGroupBy() error {
 			Msgs: []string{"Reducing the table using configuration " + cfg.String()},
 		}
 	})
+	if p.tbl.NumRows() == 0 {
+		// No solutions: there is nothing to reduce and the result is empty.
+		return nil
+	}
 	return p.tbl.Reduce(cfg, aaps)
 }
 
